@@ -353,7 +353,8 @@ func skeleton(t skelTarget) string {
 }
 
 // prune drops control-flow constructs that contain no watched event (lock op, yield point, watched
-// field access, watched call, channel op), so that unrelated code does not show in a skeleton.
+// field access, watched call, channel op) and no exit (return/continue/break), so that unrelated code
+// (logging, metrics) does not show in a skeleton.
 func prune(lines []string) []string {
 	type node struct {
 		text string
@@ -379,7 +380,8 @@ func prune(lines []string) []string {
 		t := n.text
 		if strings.Contains(t, ".Lock") || strings.Contains(t, ".Unlock") || strings.Contains(t, ".RLock") || strings.Contains(t, ".RUnlock") ||
 			strings.HasPrefix(t, "point:") || strings.HasPrefix(t, "read:") || strings.HasPrefix(t, "write:") ||
-			strings.HasPrefix(t, "call:") || strings.HasPrefix(t, "send:") || strings.HasPrefix(t, "recv:") {
+			strings.HasPrefix(t, "call:") || strings.HasPrefix(t, "send:") || strings.HasPrefix(t, "recv:") ||
+			t == "return" || t == "continue" || t == "break" || t == "goto" {
 			return true
 		}
 		for _, k := range n.kids {
